@@ -14,6 +14,8 @@
      rx    [chan, data]                 the dispatcher starts dispatching a port-2 packet
      upd   [cb, p, arg, cache, get]     update callback cb ran (argument, Param.values, get_value)
      cb    [rid, pay]                   the reply callback given to call rid ran
+     ext   [p, dev, lib]                after connecting: extended type the device answered for p, and
+                                        whether the library marked p persistent
      final [p, cache, get]              after the run
      end   [budget, dead]               nothing can move any more (budget: run cut off instead)
 
@@ -155,6 +157,9 @@ ECb == /\ Ev.e = "cb"
           ELSE /\ mrxs' = [mrxs EXCEPT ![Len(mrxs)].cbs = Append(@, [rid |-> Ev.rid, pay |-> Ev.pay])]
                /\ UNCHANGED <<bad, badAt>>
        /\ UNCHANGED <<mcalls, missued, mwire, mdown, mgots>> /\ Keep
+EExt == /\ Ev.e = "ext"
+        /\ Fail(P!ExtClause(Ev.dev, Ev.lib))
+        /\ UNCHANGED monvars /\ Keep
 EFinal == /\ Ev.e = "final"
           /\ Fail(P!First(<<LastRxClause,
                             P!FreshClause(T.cfg, Ev.p, Ev.cache, mdown, Len(mrxs)),
@@ -169,7 +174,7 @@ EEnd == /\ Ev.e = "end"
 
 Step == /\ l <= Len(T.ev)
         /\ l' = l + 1 /\ UNCHANGED tid
-        /\ (EStep \/ ECall \/ EIssue \/ ERet \/ EGot \/ ETx \/ EDown \/ ERx \/ EUpd \/ ECb \/ EFinal \/ EEnd)
+        /\ (EStep \/ ECall \/ EIssue \/ ERet \/ EGot \/ ETx \/ EDown \/ ERx \/ EUpd \/ ECb \/ EExt \/ EFinal \/ EEnd)
 
 Finish == /\ l = Len(T.ev) + 1
           /\ l' = l + 1
